@@ -66,6 +66,7 @@ from ._loaders_dumpers import (
     set_omegaconf_loader,
 )
 from ._namespace import (
+    del_clash_mark,
     Namespace,
     NSKeyError,
     is_meta_key,
@@ -1350,9 +1351,9 @@ class ArgumentParser(ParserDeprecations, ActionsContainer, ArgumentLinking, argp
             cfg_branch = cfg
             cfg = Namespace()
             cfg[parent_key] = cfg_branch
-            keys = [parent_key + "." + k for k in cfg_branch.__dict__.keys()]
+            keys = [parent_key + "." + del_clash_mark(k) for k in cfg_branch.__dict__.keys()]
         else:
-            keys = list(cfg.__dict__.keys())
+            keys = [del_clash_mark(k) for k in cfg.__dict__.keys()]
 
         if prev_cfg:
             prev_cfg = prev_cfg.clone()
@@ -1379,7 +1380,7 @@ class ArgumentParser(ParserDeprecations, ActionsContainer, ArgumentLinking, argp
                 if isinstance(value, dict):
                     value = Namespace(value)
                 if isinstance(value, Namespace):
-                    new_keys = value.__dict__.keys()
+                    new_keys = [del_clash_mark(k) for k in value.__dict__.keys()]
                     keys += [key + "." + k for k in new_keys if key + "." + k not in keys]
                     if not new_keys and action is None and not (_is_branch_key(self, key) or _is_group_key(self, key)):
                         value = {}  # empty mapping in an unknown key, kept as a leaf so that validation reports it
